@@ -29,7 +29,7 @@ func init() {
 		Rule: "seeded histories on a real primary with a backup service, through both real backup clients: the file-based client on a directory, and the LiteFS Cloud client talking to an in-process server that implements the protocol (GET /pos, POST /db/tx with the contiguity rule, EPOSMISMATCH errors and the Litefs-Hwm header, GET /db/snapshot). Steps between syncs: commits in rollback and WAL mode (also more than the 256-file compaction limit), drop and recreate, retention sweeps that remove local files the service does not have yet, uploads that fail before, in the middle of, or after the body (the service may or may not have taken the file), and manipulations of the service: position behind / equal / ahead on the same history / forked (same TXID, other checksum; other history altogether) / database missing. Oracles after every sync that reports success: the service holds a contiguous, verifying chain; if no restore happened its position is a position of the primary's history (a prefix) and, when the sync moved everything, equals the primary's position and restores (all files compacted and applied) to exactly the primary's image; when the service was ahead, forked or could not be extended the primary ends up with exactly the service's image and position and the service's files are untouched; the published high-water mark never exceeds the highest TXID the service acknowledged; after a failed upload the service chain is still contiguous and the next sync succeeds. Background-stream runs (nobody but the primary touches the service): at every observation the primary has not moved to a position outside or earlier in its own history, the service chain is contiguous and a prefix of that history, the high-water mark is behind the acknowledgements, and once the service stays reachable the backlog drains within 8 rounds of (commit, wait). evaluations = syncs; distinct = distinct (client, relation before the sync, fault, outcome) tuples; non-trivial = run with >= 1 incremental upload and >= 1 restore or fault",
 		Run:   runC14,
 		NonTrivial: func(r *Run) bool {
-			return r.Stats["c14.sync.checked"] > 0
+			return r.Stats["c14.sync.checked"] > 0 || (r.Stats["c14.race.checked"] > 0 && r.Stats["c14.race.commit"] > 0)
 		},
 		Assumptions: []string{"the LiteFS Cloud server is a model written from the client's protocol (same contiguity rule as the file client); two thirds of the runs issue syncs explicitly (Store.SyncBackup); one third runs the background stream (monitorPrimaryBackup with its cached position map, retry ticker, batching delay and full-sync interval) on the fake clock with service outages, without manipulating the service"},
 		Real:        []string{"Store.streamBackup / streamBackupDB / streamBackupDBSnapshot / restoreDBFromBackup, ltx.Compactor, litefs.FileBackupClient, lfsc.BackupClient, retention with HWM"},
@@ -198,7 +198,9 @@ type c14faulty struct {
 func (f *c14faulty) WriteTx(ctx context.Context, name string, rd io.Reader) (ltx.TXID, error) {
 	f.mu.Lock()
 	mode := f.mode
-	f.mode = ""
+	if mode != "snapshot-cut" {
+		f.mode = ""
+	}
 	f.mu.Unlock()
 	switch mode {
 	case "before":
@@ -238,6 +240,32 @@ func (f *c14faulty) WriteTx(ctx context.Context, name string, rd io.Reader) (ltx
 	}
 	return hwm, err
 }
+
+// FetchSnapshot: with mode "snapshot-cut" the download ends with a connection
+// error half way through the body.
+func (f *c14faulty) FetchSnapshot(ctx context.Context, name string) (io.ReadCloser, error) {
+	rc, err := f.BackupClient.FetchSnapshot(ctx, name)
+	if err != nil {
+		return rc, err
+	}
+	f.mu.Lock()
+	mode := f.mode
+	if mode == "snapshot-cut" {
+		f.mode = ""
+	}
+	f.mu.Unlock()
+	if mode != "snapshot-cut" {
+		return rc, nil
+	}
+	f.r.Count("fault.snapshot_cut")
+	b, _ := io.ReadAll(rc)
+	rc.Close()
+	return io.NopCloser(io.MultiReader(bytes.NewReader(b[:len(b)/2]), c14errReader{})), nil
+}
+
+type c14errReader struct{}
+
+func (c14errReader) Read([]byte) (int, error) { return 0, syscall.ECONNRESET }
 
 // helpers ------------------------------------------------------------------------
 
@@ -499,6 +527,10 @@ func c14Continuous(r *Run, h *hist, svc c14svc, kind string, compress bool, rete
 
 func runC14(r *Run) {
 	t := r.Tape
+	if pick := t.Chance(1, 8); (pick && os.Getenv("SIM_C14_SCENARIO") != "0") || os.Getenv("SIM_C14_SCENARIO") == "1" { // (developer override)
+		c14RestoreRace(r)
+		return
+	}
 	h := &hist{r: r, name: "db"}
 	h.pageSize = []uint32{512, 1024, 4096}[t.Next(3)]
 	h.jmode = []string{ModeDelete, ModeTruncate, ModePersist}[t.Next(3)]
@@ -642,7 +674,7 @@ func runC14(r *Run) {
 			continue
 		}
 		// ... then a sync, possibly with a failing upload
-		fault := []string{"", "", "", "before", "middle", "after", "os-error"}[t.Pick([]int{1, 1, 1, 1, 1, 1, 2})]
+		fault := []string{"", "", "", "before", "middle", "after", "os-error", "snapshot-cut"}[t.Pick([]int{2, 2, 2, 2, 2, 2, 4, 3})]
 		fb.mu.Lock()
 		if fault != "os-error" {
 			fb.mode = fault
@@ -704,6 +736,19 @@ func runC14(r *Run) {
 		spos, sIm, msg := c14chain(names, data)
 		if !r.Check(msg == "", "c14.service-chain", "after the sync (%s, fault %q, result %v) the service chain is broken: %s", rel, fault, err, msg) {
 			return
+		}
+		// whatever the sync did or failed to do - uploads refused, cut or
+		// unacknowledged, a snapshot download that breaks off - the primary's own
+		// log is still one chain that ends at the position it reports. (Not
+		// asked after an injected local file-system error: the restore removes
+		// the old files, renames the snapshot in and applies it, and an I/O
+		// error between those steps leaves the log empty or ahead of the
+		// position on the unchanged tree too - DESIGN section 16.)
+		if lp := db.Pos(); lp.TXID > 0 && fault != "os-error" {
+			if cm := CheckChain(db.Path(), lp); cm != "" {
+				r.Failf("c14.local-log", "after the sync (%s, fault %q at %s, result %v) the primary's own transaction log no longer matches its position %s: %s", rel, fault, h.n.OS.FiredAt, err, lp, cm)
+				return
+			}
 		}
 		lpos := db.Pos()
 		// HWM
@@ -901,4 +946,183 @@ func maxInt(a, b int) int {
 		return a
 	}
 	return b
+}
+
+// c14RestoreRace: the sync that has to restore from the service runs while an
+// application keeps committing on the primary (WAL mode: writers only need the
+// write lock, which the restore takes and releases like everybody else). The
+// sync and the application are tasks of the seeded scheduler with every OS
+// call, FUSE operation and lock transition a scheduling point. Whatever the
+// order: the node stays up, the primary ends on the service's history (the
+// service's position, or transactions committed on top of it after the
+// restore), its own log is one chain ending at its position, and the position's
+// checksum is the from-scratch checksum of the files.
+func c14RestoreRace(r *Run) {
+	t := r.Tape
+	h := &hist{r: r, name: "db"}
+	h.pageSize = []uint32{512, 4096}[t.Next(2)]
+	h.jmode = ModeDelete
+	h.maxPages = 10
+	compress := t.Chance(1, 2)
+	r.Cfg["scenario"], r.Cfg["page_size"] = "restore-race", h.pageSize
+	h.n = r.NewNode(NodeCfg{Candidate: true, Compress: compress})
+	h.n.Cfg.Leaser = litefs.NewStaticLeaser(true, h.n.Name, h.n.URL())
+	dir := filepath.Join(r.Dir, "backup")
+	bc := litefs.NewFileBackupClient(dir)
+	if err := bc.Open(); err != nil {
+		r.Inconclusive("backup open: %v", err)
+		return
+	}
+	svc := &c14file{dir: dir, c: bc}
+	h.n.PreOpen = func(n *Node) { n.Store.BackupClient = bc }
+	h.n.Cfg.Tune = func(s *litefs.Store) {
+		s.RetentionMonitorInterval = 0
+		s.BackupDelay = 0
+	}
+	if err := h.n.Open(); err != nil {
+		r.Inconclusive("open: %v", err)
+		return
+	}
+	h.n.WaitPrimary(5 * time.Second)
+	if !h.openConns(1) {
+		return
+	}
+	for i := 0; i < 3 && h.ref.N() == 0; i++ {
+		h.commit(t)
+	}
+	if r.Failed() || h.ref.N() == 0 || !h.toWAL() {
+		return
+	}
+	h.commit(t)
+	ctx := context.Background()
+	h.closeConns()
+	if t.Chance(1, 2) {
+		if err := h.n.Store.SyncBackup(ctx); err != nil {
+			r.Inconclusive("first sync: %v", err)
+			return
+		}
+	}
+	// the service gets another history (ahead of the primary, or a fork)
+	names, data, ok := c14DonorFiles(r, t, h, compress, t.Range(0, 3), t.Chance(1, 2))
+	if !ok || r.Failed() {
+		r.Count("c14.race.no-donor")
+		return
+	}
+	svc.wipe(h.name)
+	for k := range names {
+		svc.put(h.name, names[k], data[k])
+	}
+	spos, _, msg := c14chain(names, data)
+	if msg != "" {
+		r.Inconclusive("donor chain: %s", msg)
+		return
+	}
+	db := h.db()
+	if db == nil {
+		return
+	}
+	before := db.Pos()
+	s := r.NewSched()
+	installLockSeam(r, h.n, db, nil)
+	s.Stick = t.Range(20, 90)
+	s.MaxTick = 2 * time.Millisecond
+	var wg sync.WaitGroup
+	var syncErr error
+	wg.Add(1)
+	s.Go("sync", func() {
+		defer wg.Done()
+		s.Yield(0, "op", "sync")
+		c, cancel := context.WithTimeout(ctx, 30*time.Second)
+		syncErr = h.n.Store.SyncBackup(c)
+		cancel()
+	})
+	commits := 0
+	rounds := t.Range(2, 8)
+	wg.Add(1)
+	s.Go("app", func() {
+		defer wg.Done()
+		c := h.n.NewConn(h.name, h.jmode, h.pageSize)
+		if c.Open() != 0 {
+			return
+		}
+		defer c.Close()
+		for i := 0; i < rounds && !s.stopping.Load() && !h.n.Exited; i++ {
+			s.Yield(0, "op", "app")
+			// what SQLite sees now (the restore may have replaced everything)
+			if e := c.LockShared(); e != 0 {
+				continue
+			}
+			hdr, okh, e := c.ReadHeader()
+			if e != 0 || !okh || !hdr.WAL {
+				c.UnlockAll()
+				return // the service's database is not a WAL database: the application stops
+			}
+			if c.wal == nil && c.WalOpen() != 0 {
+				c.UnlockAll()
+				continue
+			}
+			im, e := c.WalReadTx()
+			if e != 0 || im == nil || im.N() == 0 {
+				continue
+			}
+			prog := GenWalProgram(t, im.N(), 10)
+			prog.Outcome = OutCommit
+			if res := c.WalWriteTx(prog, im); res.Outcome == OutCommit {
+				commits++
+				r.Count("c14.race.commit")
+			} else {
+				r.Count("c14.race.tx-" + res.Outcome)
+			}
+		}
+	})
+	done := make(chan struct{})
+	go func() { wg.Wait(); close(done) }()
+	finished := func() bool {
+		select {
+		case <-done:
+			return true
+		default:
+			return false
+		}
+	}
+	for st := 0; st < 12000 && !r.Failed(); st++ {
+		s.Settle()
+		if finished() {
+			break
+		}
+		if !s.StepOnce(nil, true) {
+			time.Sleep(time.Millisecond)
+		}
+	}
+	s.Stop()
+	for i := 0; i < 10000 && !finished(); i++ {
+		time.Sleep(time.Millisecond)
+		s.Settle()
+	}
+	if r.Failed() {
+		return
+	}
+	if !finished() {
+		r.Inconclusive("c14 restore race: tasks did not finish")
+		return
+	}
+	if !r.Check(!h.n.Exited, "c14.exit", "the primary stopped (Exit %d) during a backup sync that had to restore from the service (at %s, primary at %s) while an application kept committing (%d commits); the sync returned %v", h.n.ExitCode, spos, before, commits, syncErr) {
+		return
+	}
+	lp := db.Pos()
+	if cm := CheckChain(db.Path(), lp); cm != "" && lp.TXID > 0 {
+		r.Failf("c14.local-log", "after a restore that raced with application commits (sync: %v) the primary's own log does not match its position %s: %s", syncErr, lp, cm)
+		return
+	}
+	disk, err := ReadDiskImage(h.n.Store.DBPath(h.name))
+	if r.Check(err == nil, "c14.read", "%v", err) && lp.TXID > 0 {
+		r.Check(uint64(lp.PostApplyChecksum) == disk.Checksum(), "c14.restore-image", "after a restore that raced with application commits the primary reports %s but the from-scratch checksum of its files is %016x", lp, disk.Checksum())
+	}
+	if syncErr == nil {
+		r.Check(lp.TXID >= spos.TXID, "c14.restore-position", "the sync succeeded with the service at %s; the primary is at %s", spos, lp)
+		r.Count("c14.race.checked")
+	} else {
+		r.Count("c14.race.sync-error")
+	}
+	r.State("restore-race/%v/%d", syncErr == nil, min(commits, 3))
 }
